@@ -116,7 +116,7 @@ func (i *InvalidationIndex) InvalidateByLabels(ctx context.Context, labels ...st
 
 	cnt := 0
 
-	for name, labeledKeys := range i.labeledKeysByName {
+	for name, labeledKeys := range labeledKeysByName {
 		n, err := i.invalidateByLabels(ctx, labeledKeys, deleters[name], labels...)
 		cnt += n
 
@@ -140,14 +140,15 @@ func (i *InvalidationIndex) invalidateByLabels(ctx context.Context, labeledKeys 
 
 			for label, keys := range cutKeys {
 				// Cut keys already deleted in other labels.
-				for j, k := range keys {
-					if deleted[k] {
-						keys[j] = keys[len(keys)-1]
-						keys = keys[:len(keys)-1]
+				left := keys[:0]
+
+				for _, k := range keys {
+					if !deleted[k] {
+						left = append(left, k)
 					}
 				}
 
-				labeledKeys[label] = append(labeledKeys[label], keys...)
+				labeledKeys[label] = append(labeledKeys[label], left...)
 			}
 		}
 	}()
